@@ -207,13 +207,15 @@ func (s *vhScan) timestamp(sec uint32) {
 func VH_C12_TimestampOld() {
 	data := vhBytes(vhPre + 4)
 	sec := uint32(vhLE(data[vhPre : vhPre+4]))
-	out, l, err := CellBytes(data, vhPre, TypeTimestamp, 0, false)
-	vhAssert(err == nil && l == 4, "timestamp length")
+	// the case split comes BEFORE the call: should the decoder leave the encoder's reach, the probe
+	// of the zero case carries the zero value
 	if sec == 0 {
 		vhCover("zero")
 	} else {
 		vhCover("nonzero")
 	}
+	out, l, err := CellBytes(data, vhPre, TypeTimestamp, 0, false)
+	vhAssert(err == nil && l == 4, "timestamp length")
 	s := &vhScan{b: out}
 	s.timestamp(sec)
 	s.end()
@@ -225,13 +227,13 @@ func VH_C12_Timestamp2(dec int) {
 	sec := uint32(vhBE(data[vhPre : vhPre+4]))
 	fr := vhBE(data[vhPre+4 : vhPre+4+nb])
 	vhAssume(validFrac(fr, dec))
-	out, l, err := CellBytes(data, vhPre, TypeTimestamp2, uint16(dec), false)
-	vhAssert(err == nil && l == 4+nb, "timestamp2 length")
 	if sec == 0 {
 		vhCover("zero")
 	} else {
 		vhCover("nonzero")
 	}
+	out, l, err := CellBytes(data, vhPre, TypeTimestamp2, uint16(dec), false)
+	vhAssert(err == nil && l == 4+nb, "timestamp2 length")
 	s := &vhScan{b: out}
 	s.timestamp(sec)
 	s.frac(fr*scale, dec)
